@@ -3,7 +3,7 @@ from warnings import warn
 import matplotlib.pyplot as plt
 
 from numpy import array, savez, load, zeros
-from numpy import sqrt, exp, dot, cov
+from numpy import sqrt, exp, dot, cov, atleast_2d
 from scipy.linalg import eigh
 
 from inference.mcmc.gibbs import MetropolisChain, Parameter
@@ -103,9 +103,10 @@ class PcaChain(MetropolisChain):
         )
         if hasattr(self, "covar"):
             nu = min(2 * self.dir_update_interval / self.last_update, 0.5)
-            self.covar = self.covar * (1 - nu) + nu * cov(data)
+            self.covar = self.covar * (1 - nu) + nu * atleast_2d(cov(data))
         else:
-            self.covar = cov(data)
+            # (the covariance of a single parameter is returned as a 0-d array)
+            self.covar = atleast_2d(cov(data))
 
         w, V = eigh(self.covar)
 
